@@ -52,13 +52,53 @@ theorem phraseCandidates_ok (hE : EnvOK env G) {sh : Shared D L} (h : ShInv env 
       rfl
   · exact .ok hbase
 
+/-! ## symbol tables -/
+
+theorem symMenu_ok {y : SymSel} (hy : SymWF y) : ∃ l, y.menu = .ok l := by
+  unfold SymSel.menu
+  split
+  · next c hc =>
+    have hlt := hy.cur c hc
+    rw [List.getElem?_eq_getElem hlt]
+    exact ⟨_, rfl⟩
+  · exact ⟨_, rfl⟩
+
+theorem symSelect_ok {y : SymSel} (hy : SymWF y) (n : Nat) :
+    OkAnd (fun r => SymWF r.2 ∧ ∀ sym, r.1 = some sym → sym.isSyl = false) (y.select n) := by
+  unfold SymSel.select
+  split
+  · next hc =>
+    split
+    · exact .ok ⟨hy, fun sym hh => (by cases hh)⟩
+    · next name hcat =>
+      have hmem : (name, none) ∈ y.category := List.mem_of_getElem? hcat
+      have hne := hy.leaf name hmem
+      cases name with
+      | nil => exact absurd rfl hne
+      | cons ch rest =>
+        refine .ok ⟨⟨fun c hh => (by cases hh), hy.leaf, hy.idx⟩, fun sym hh => ?_⟩
+        simp only [List.head?_cons, Option.some.injEq] at hh
+        rw [← hh]; rfl
+    · next name i hcat =>
+      have hmem : (name, some i) ∈ y.category := List.mem_of_getElem? hcat
+      refine .ok ⟨⟨fun c hh => ?_, hy.leaf, hy.idx⟩, fun sym hh => (by cases hh)⟩
+      simp only [Option.some.injEq] at hh
+      rw [← hh]; exact hy.idx name i hmem
+  · next c hc =>
+    have hlt := hy.cur c hc
+    rw [List.getElem?_eq_getElem hlt]
+    refine .ok ⟨⟨fun c' hh => (by cases hh), hy.leaf, hy.idx⟩, fun sym hh => ?_⟩
+    cases hx : (y.table[c])[n]? with
+    | none => rw [hx] at hh; cases hh
+    | some v => rw [hx] at hh; simp only [Option.map_some, Option.some.injEq] at hh; rw [← hh]; rfl
+
 theorem candidates_ok (hE : EnvOK env G) {sh : Shared D L} (h : ShInv env G sh) {s : Selecting}
-    (hs : SelInv env sh s) (hnt : selNoTable s) : OkAnd (fun _ => True) (Selecting.candidates env s sh) := by
+    (hs : SelInv env sh s) : OkAnd (fun _ => True) (Selecting.candidates env s sh) := by
   unfold Selecting.candidates
   have h1 := hs.sel
   split
   · next p hp => rw [hp] at h1; exact (phraseCandidates_ok hE h h1).mono (fun _ _ => trivial)
-  · next y hy => exact absurd hy (hnt y)
+  · next y hy => rw [hy] at h1; obtain ⟨l, hl⟩ := symMenu_ok h1; rw [hl]; exact .ok trivial
   · next sym hy =>
     rw [hy] at h1
     cases sym with
@@ -66,8 +106,8 @@ theorem candidates_ok (hE : EnvOK env G) {sh : Shared D L} (h : ShInv env G sh) 
     | chr ch => obtain ⟨l, hl⟩ := specialMenu_chr ch; rw [hl]; exact .ok trivial
 
 theorem totalPage_ok (hE : EnvOK env G) {sh : Shared D L} (h : ShInv env G sh) {s : Selecting}
-    (hs : SelInv env sh s) (hnt : selNoTable s) : OkAnd (fun _ => True) (Selecting.totalPage env s sh) := by
-  obtain ⟨cs, hq, _⟩ := candidates_ok hE h hs hnt
+    (hs : SelInv env sh s) : OkAnd (fun _ => True) (Selecting.totalPage env s sh) := by
+  obtain ⟨cs, hq, _⟩ := candidates_ok hE h hs
   unfold Selecting.totalPage
   rw [hq]
   dsimp only
@@ -79,17 +119,17 @@ theorem SelInv.page {sh : Shared D L} {s : Selecting} (hs : SelInv env sh s) (n 
     SelInv env sh { s with pageNo := n } := ⟨hs.sel, hs.repl⟩
 
 theorem selPrevPage_ok (hE : EnvOK env G) {sh : Shared D L} (h : ShInv env G sh) {s : Selecting}
-    (hs : SelInv env sh s) (hnt : selNoTable s) : SelResOK env G (selPrevPage env s sh) := by
+    (hs : SelInv env sh s) : SelResOK env G (selPrevPage env s sh) := by
   unfold selPrevPage
   split
   · exact .ok ⟨h, fun _ _ => hs.page _, fun st hst => (by cases hst)⟩
-  · obtain ⟨tp, hq, _⟩ := totalPage_ok hE h hs hnt
+  · obtain ⟨tp, hq, _⟩ := totalPage_ok hE h hs
     rw [hq]
     exact .ok ⟨h, fun _ _ => hs.page _, fun st hst => (by cases hst)⟩
 
 theorem selNextPage_ok (hE : EnvOK env G) {sh : Shared D L} (h : ShInv env G sh) {s : Selecting}
-    (hs : SelInv env sh s) (hnt : selNoTable s) : SelResOK env G (selNextPage env s sh) := by
-  obtain ⟨tp, hq, _⟩ := totalPage_ok hE h hs hnt
+    (hs : SelInv env sh s) : SelResOK env G (selNextPage env s sh) := by
+  obtain ⟨tp, hq, _⟩ := totalPage_ok hE h hs
   unfold selNextPage
   rw [hq]
   dsimp only
@@ -105,11 +145,30 @@ def SelectOK (env : Env D L) (G : D → Prop) (r : Outcome (Selecting × Shared 
     ∀ st, x.2.2 = .toState st → StInv env x.2.1 st) r
 
 theorem select_ok (hE : EnvOK env G) {sh : Shared D L} (h : ShInv env G sh) {s : Selecting}
-    (hs : SelInv env sh s) (hnt : selNoTable s) (n : Nat) : SelectOK env G (Selecting.select env s sh n) := by
+    (hs : SelInv env sh s) (n : Nat) : SelectOK env G (Selecting.select env s sh n) := by
   have hpop : ∀ c : CompEditor, CedPostC sh.com c → ShInv env G { sh with com := c.popCursor } := by
     intro c hc
     have h1 := h.setComC hc
     exact (h1.setComSame (ced_popCursor h1.ced) (by rw [popCursor_inner])).congr rfl rfl rfl rfl rfl rfl
+  have hins : ∀ x : Nat, OkAnd (fun c => ShInv env G { sh with com := c.popCursor }) (sh.com.insert (.chr x)) :=
+    fun x => (insertChr_ok h.ced x).mono (fun c hc => hpop c hc)
+  have hrep : ∀ x : Nat, s.action = .replace → (∀ p, s.sel ≠ .phrase p) →
+      OkAnd (fun c => ShInv env G { sh with com := c.popCursor }) (sh.com.replace (.chr x)) := by
+    intro x hact hnp
+    obtain ⟨ch', hch'⟩ : ∃ ch', sh.com.inner.symbols[sh.com.cursor]? = some (Sym.chr ch') := by
+      rcases hs.repl hact with ⟨p, hp⟩ | hh
+      · exact absurd hp (hnp p)
+      · exact hh
+    have hlt : sh.com.cursor < sh.com.inner.symbols.length := by
+      rcases Nat.lt_or_ge sh.com.cursor sh.com.inner.symbols.length with hh | hh
+      · exact hh
+      · rw [List.getElem?_eq_none hh] at hch'; cases hch'
+    have hv : CedValid sh.com (.replace (.chr x)) := by
+      refine .inr ?_
+      intro sel hsel hcov
+      obtain ⟨k, hk⟩ := h.ced.inner.syl sel hsel sh.com.cursor hcov.1 hcov.2
+      rw [hk] at hch'; cases hch'
+    exact (ced_replace h.ced (.chr x) hlt hv).mono (fun c hpc => hpop c (hpc.toC (fun s hs => by cases hs; rfl)))
   have h1 := hs.sel
   unfold Selecting.select
   dsimp only
@@ -140,7 +199,32 @@ theorem select_ok (hE : EnvOK env G) {sh : Shared D L} (h : ShInv env G sh) {s :
       · exact (hc1.setComSame (ced_moveRight hc1.ced) rfl).congr rfl rfl rfl rfl rfl rfl
       · exact hc1
     · exact .ok ⟨h, fun _ _ => hs, fun st hst => (by cases hst)⟩
-  · next y hy => exact absurd hy (hnt y)
+  · next y hy =>
+    rw [hy] at h1
+    obtain ⟨⟨osym, y'⟩, hqy, hy', hchr⟩ := symSelect_ok h1 (Selecting.offset s sh n)
+    rw [hqy]
+    cases osym with
+    | none =>
+      exact .ok ⟨h, fun _ _ => ⟨hy', fun ha => (hs.repl ha).imp (fun ⟨p, hp⟩ => by rw [hy] at hp; cases hp) id⟩,
+        fun st hst => (by cases hst)⟩
+    | some sym =>
+      dsimp only
+      cases sym with
+      | syl k => have := hchr _ rfl; simp [Sym.isSyl] at this
+      | chr x =>
+        cases hact : s.action with
+        | insert =>
+          dsimp only
+          obtain ⟨c, hqc, hc⟩ := hins x
+          rw [hqc]
+          simp only [Outcome.map]
+          exact .ok ⟨hc, fun b hb => (by cases hb), fun st hst => (by cases hst; trivial)⟩
+        | replace =>
+          dsimp only
+          obtain ⟨c, hqc, hc⟩ := hrep x hact (fun p hp => by rw [hy] at hp; cases hp)
+          rw [hqc]
+          simp only [Outcome.map]
+          exact .ok ⟨hc, fun b hb => (by cases hb), fun st hst => (by cases hst; trivial)⟩
   · next sym hy =>
     rw [hy] at h1
     cases sym with
@@ -174,27 +258,13 @@ theorem select_ok (hE : EnvOK env G) {sh : Shared D L} (h : ShInv env G sh) {s :
         cases hact : s.action with
         | insert =>
           dsimp only
-          obtain ⟨c, hqc, hpc⟩ := insertChr_ok h.ced x
+          obtain ⟨c, hqc, hc⟩ := hins x
           rw [hqc]
-          exact .ok ⟨hpop c hpc, fun b hb => (by cases hb), fun st hst => (by cases hst; trivial)⟩
+          exact .ok ⟨hc, fun b hb => (by cases hb), fun st hst => (by cases hst; trivial)⟩
         | replace =>
           dsimp only
-          obtain ⟨ch', hch'⟩ : ∃ ch', sh.com.inner.symbols[sh.com.cursor]? = some (Sym.chr ch') := by
-            rcases hs.repl hact with ⟨p, hp⟩ | hh
-            · rw [hy] at hp; cases hp
-            · exact hh
-          have hlt : sh.com.cursor < sh.com.inner.symbols.length := by
-            rcases Nat.lt_or_ge sh.com.cursor sh.com.inner.symbols.length with hh | hh
-            · exact hh
-            · rw [List.getElem?_eq_none hh] at hch'; cases hch'
-          have hv : CedValid sh.com (.replace (.chr x)) := by
-            refine .inr ?_
-            intro sel hsel hcov
-            obtain ⟨k, hk⟩ := h.ced.inner.syl sel hsel sh.com.cursor hcov.1 hcov.2
-            rw [hk] at hch'; cases hch'
-          obtain ⟨c, hqc, hpc⟩ := ced_replace h.ced (.chr x) hlt hv
+          obtain ⟨c, hqc, hc⟩ := hrep x hact (fun p hp => by rw [hy] at hp; cases hp)
           rw [hqc]
-          exact .ok ⟨hpop c (hpc.toC (fun s hs => by cases hs; rfl)), fun b hb => (by cases hb),
-            fun st hst => (by cases hst; trivial)⟩
+          exact .ok ⟨hc, fun b hb => (by cases hb), fun st hst => (by cases hst; trivial)⟩
 
 end Chewing.C01
